@@ -266,6 +266,21 @@ def gen_spec_c13(seed, run, tier):
     for _ in range(n_cases):
         cmd = gen_command(rng, world)
         r = rng.random()
+        if world.get("clim") and rng.random() < 0.12:
+            # -c / -C: the one given last decides both the file and the operation, so an earlier,
+            # overridden one must leave no trace:  X -C f -c f  ==  X -c f
+            last = rng.choice(["-c", "-C"])
+            first = "-C" if last == "-c" else "-c"
+            groups = [g for g in cmd["groups"] if g[0] not in ("-c", "-C")]
+            a = list(cmd["files"]) + [t for g in groups for t in g] + [last, world["clim"]["name"]]
+            items = [list(g) for g in groups]
+            rng.shuffle(items)
+            pos = rng.randint(0, len(items))
+            b_groups = items[:pos] + [[first, world["clim"]["name"]]] + items[pos:] + [[last, world["clim"]["name"]]]
+            extra = items[len(items):]
+            b = list(cmd["files"]) + [t for g in b_groups for t in g]
+            cases.append({"kind": "order", "sub": "override", "a": a, "b": b})
+            continue
         if r < 0.28:
             cases.append({"kind": "order", "a": plain(cmd), "b": linearise(rng, cmd)})
         elif r < 0.56:
